@@ -25,9 +25,9 @@ class DeepONet(Model):
         The number of output neurons, that will be the output of the
         TrunkNet and BranchNet. The corresponding outputs of both networks
         are then connected with the inner product.
-        For higher dimensional outputs, will be multiplied my the dimension of
-        the output space, so each dimension will have the same number of
-        intermediate neurons.
+        For higher dimensional outputs, has to be a multiple of the dimension of
+        the output space, each dimension gets the same number
+        (output_neurons / dimension) of intermediate neurons.
 
     Notes
     -----
